@@ -161,9 +161,15 @@ class InterruptedPlainWrite(Lemma):
     """interruption of a chunk write: at every crash point the target holds a prefix of what was being
     written (model: a file's content is the bytes written so far; a gzip stream is complete only after
     close). A later reader then finds the chunk complete, absent, or detectably invalid:
-      * gzip on: an incomplete stream -> EOFError -> DataAccessError (FetchChunkFaults above);
-      * gzip off, raw encoding: a strict prefix has the wrong length -> InvalidFormatError
-        (c03_io.RawDecode: only buffers of exactly C*Z*Y*X*itemsize bytes are accepted)."""
+      * gzip on: an incomplete stream of length >= 1 -> EOFError / BadGzipFile -> DataAccessError
+        (FetchChunkFaults above); a .gz of length 0 (crash between open and the first write) is read by
+        CPython's gzip as b"" without error -> falls under the next case with k == 0;
+      * raw encoding: a strict prefix (incl. the empty one) has the wrong length -> InvalidFormatError
+        (c03_io.RawDecode: only buffers of exactly C*Z*Y*X*itemsize bytes are accepted, and a chunk has
+        at least one voxel); compressed_segmentation / jpeg: C10's decoder contracts (any byte string
+        either decodes to the exact shape or raises InvalidFormatError) -- wrong values from a prefix that
+        happens to be a valid file of the same shape are outside what a decoder can detect and are
+        not claimed."""
     name = "lemma:interrupted-plain-chunk-write-is-detectable"
     props = ("C18",)
 
@@ -172,6 +178,7 @@ class InterruptedPlainWrite(Lemma):
         k = c.int("bytes_written_before_the_crash", inp=True)
         c.assume(And(n >= 1, k >= 0, k < n))
         c.prove("a-strict-prefix-never-has-the-full-length(so the raw decoder rejects it)", k != n)
+        c.prove("the-empty-prefix(read as b'' through gzip)-never-has-the-full-length", 0 != n)
 
 
 @register
